@@ -338,6 +338,18 @@ class Check(PropertyCheck):
         cases.append({'kind': 'exact/ellipse', 'pick': 2, 'on_corner': True,
                       'region': {'kind': 'ellipse', 'c': [0.5 - 0.6 / 1.3, 0.5 - 0.8 / 0.9], 'w': 2 / 1.3, 'h': 2 / 0.9,
                                  'angle': [0.0, 'deg'], 'include': 'absent'}})
+        # far from the pixel origin, with an extent that pokes a few hundredths of a pixel into the next row / column
+        # (a tolerance RELATIVE to the coordinate would swallow it)
+        for _ in range(10 if tier == 'quick' else 300):
+            big = float(rng.choice([600, 2000, 5000, 12000, 40000]) * rng.choice([1, -1]))
+            poke = rng.choice([0.004, 0.015, 0.04])
+            r = rng.randint(2, 6) + 0.5 + poke
+            c = [big, float(rng.randint(-3, 3))] if rng.random() < 0.5 else [float(rng.randint(-3, 3)), big]
+            if rng.random() < 0.5:
+                d = {'kind': 'circle', 'c': c, 'r': r, 'include': 'absent'}
+            else:
+                d = {'kind': 'ellipse', 'c': c, 'w': 2 * r, 'h': 2 * (r - 1.0), 'angle': [0.0, 'deg'], 'include': 'absent'}
+            cases.append({'kind': 'exact/' + d['kind'], 'region': d, 'pick': rng.randrange(1 << 30)})
         cases.append({'kind': 'exact/ellipse', 'pick': 4, 'on_corner': True,
                       'region': {'kind': 'ellipse', 'c': [0.0, 1.5], 'w': 2.5, 'h': 5.0, 'angle': [90.0, 'deg'], 'include': 'absent'}})
         for _ in range(14 if tier == 'quick' else 600):
@@ -379,6 +391,8 @@ class Check(PropertyCheck):
                     continue
                 if rng.random() < 0.5:
                     d['v'].reverse()          # clockwise vertex order
+                if rng.random() < 0.25:
+                    d['v'].append(list(d['v'][0]))      # an explicitly closed ring: the first vertex is repeated at the end
                 if rng.random() < 0.4:
                     # built with the origin= keyword (vertices relative to an origin pixel)
                     d['origin'] = [float(rng.randint(-8, 8)) / 2, float(rng.randint(-8, 8)) / 2]
